@@ -173,7 +173,7 @@ def cases(draw, tier):
         from .c15 import plan
 
         bundles = draw(gen.add_bundle(spec))
-        spec["style"] = draw(plan(spec, bundles, any(c["scope"][0] == "state" and c["attach"] != "conv" for c in spec["cbs"])))
+        spec["style"] = draw(plan(spec, bundles, any(c["scope"][0] == "state" and c["attach"] != "conv" for c in spec["cbs"]), extend=True))
     other = draw(gen.machine_spec(max_states=3, max_extra=4, providers=provs, async_mode=draw(st.sampled_from(["none", "all"])), sends=False))
     # the unrelated definition uses the very same callback names where it can
     is_async = gen.is_async_spec(spec)
